@@ -185,6 +185,16 @@ def make_unwind(cfg, may_known, type_prefix='Storage'):
             for (s, name) in sites:
                 pos = f.body_open + s
                 st = stmt_start(text, msk, pos, f.body_open)
+                arm = arm_extent(msk, st, pos, f.body_close)
+                if arm is not None:
+                    # the call sits in the expression of a match arm `PAT => EXPR,`: the arm becomes `PAT => { assert(..); EXPR },`
+                    if ('arm', arm[0]) in done:
+                        continue
+                    done.add(('arm', arm[0]))
+                    edits.append((arm[0], 0, ' {\nassert(unwind_ok); // UNWIND-OBLIGATION before may-panic call %s //~ C10\n' % name))
+                    edits.append((arm[1], 0, ' }'))
+                    log.rule('R-unwind', '%s: obligation before %s (match arm)' % (f.key, name))
+                    continue
                 if st in done:
                     continue
                 done.add(st)
@@ -198,7 +208,17 @@ def make_unwind(cfg, may_known, type_prefix='Storage'):
                     e = stmt_end_after(msk, ls, f.body_close)
                     if e is None:
                         # mutation inside a tail expression: clear the flag before the expression (conservative)
-                        s0 = stmt_start(text, msk, ls + len(line) - len(line.lstrip()), f.body_open)
+                        p0 = ls + len(line) - len(line.lstrip())
+                        s0 = stmt_start(text, msk, p0, f.body_open)
+                        mm = MUT_LINE.search(line) or ASSIGN_LINE.search(line) or MUTBORROW_LINE.search(line)
+                        arm = arm_extent(msk, s0, ls + mm.start(), f.body_close)
+                        if arm is not None:
+                            if ('arm', arm[0]) in mut_done:
+                                continue
+                            mut_done.add(('arm', arm[0]))
+                            edits.append((arm[0], 0, ' {\nproof { unwind_ok = false; } // R-unwind (match arm)\n'))
+                            edits.append((arm[1], 0, ' }'))
+                            continue
                         if ('b', s0) in mut_done:
                             continue
                         mut_done.add(('b', s0))
@@ -225,6 +245,45 @@ def stmt_start(text, msk, pos, body_open):
             break
         ls = pls
     return ls
+
+
+def arm_extent(msk, st, pos, limit):
+    """If `pos` lies in the expression of a match arm that starts on the statement line `st` (`PAT => EXPR`), the extent
+    (start, end) of EXPR: from just after `=>` to the `,` / closing brace that ends the arm; else None."""
+    depth = 0
+    arrow = None
+    i = st
+    while i < pos:
+        ch = msk[i]
+        if ch in rs.OPEN:
+            depth += 1
+        elif ch in rs.CLOSE:
+            depth -= 1
+            if depth < 0:
+                return None
+        elif depth == 0 and msk.startswith('=>', i):
+            arrow = i + 2
+        elif depth == 0 and ch == ';':
+            arrow = None
+        i += 1
+    if arrow is None or depth < 0:
+        return None
+    # pos must be inside the arm expression at the depth of the arrow or deeper; if the expression is a block and pos is in it,
+    # statements inside are handled by the ordinary rule only when they start on their own line -- wrap the whole arm otherwise
+    j = arrow
+    d = 0
+    while j < limit:
+        ch = msk[j]
+        if ch in rs.OPEN:
+            d += 1
+        elif ch in rs.CLOSE:
+            d -= 1
+            if d < 0:
+                return (arrow, j)
+        elif ch == ',' and d == 0:
+            return (arrow, j)
+        j += 1
+    return None
 
 
 def stmt_end_after(msk, ls, limit):
